@@ -213,6 +213,9 @@ pub const VARIANT_LOCKSTEP: u8 = 252;
 /// The failure was observed at the end of a side walk of one to three offered actions below the state
 /// during which the intermediate states were asked for nothing but their action list, see `sparse_probe`.
 pub const VARIANT_SPARSE: u8 = 251;
+/// The failure was observed below two sibling states of one turn that were both rebuilt through the
+/// constructors and then advanced by the same step one right after the other, see `rebuilt_siblings_probe`.
+pub const VARIANT_SIBLINGS: u8 = 250;
 
 pub enum Source<'a> {
     Ops(&'a [(u16, u8)]),
@@ -504,6 +507,9 @@ impl<'o> Expander<'o> {
         // ---- transposition probe (roots only): two orders of the same two steps reach the same board;
         // a client (search with a transposition table) expands such twins back to back. Whatever the
         // engine shares between states must not leak from one path into the other.
+        if is_root && mo.step == 0 && self.rebuild && self.nodes <= self.opts.max_nodes {
+            rebuilt_siblings_probe(eng, mo, self.obs, st).map_err(|f| (f, path.clone()))?;
+        }
         if is_root && mo.step == 0 && self.nodes <= self.opts.max_nodes {
             let quiet: Vec<Action> = children.iter().copied().filter(|a| !mo.ends_turn(to_maction(a)) && legal.contains(&to_maction(a))).collect();
             let mut pairs = 0;
@@ -708,6 +714,9 @@ pub fn observe_forks(eng: &GameState, mo: &Model, variants: &[u8], obs: &mut dyn
     if variants == [VARIANT_SPARSE] {
         return sparse_probe(eng, mo, obs, st).map_err(|f| (f, VARIANT_SPARSE));
     }
+    if variants == [VARIANT_SIBLINGS] {
+        return rebuilt_siblings_probe(eng, mo, obs, st).map_err(|f| (f, VARIANT_SIBLINGS));
+    }
     if variants == [VARIANT_REBUILD] {
         // the rebuilt state itself is what the observer looks at: if the constructors do not preserve
         // behaviour, the observer's own clauses say how
@@ -790,6 +799,71 @@ pub fn observe_forks(eng: &GameState, mo: &Model, variants: &[u8], obs: &mut dyn
     Ok(())
 }
 
+
+/// Rebuilt-siblings probe (turn starts). Pairs of states reached by different first steps of the turn are
+/// both rebuilt through `GameState::new` / `PlayPhase::new` (what a client does that stores positions
+/// compactly and restores them), then the same further step is made from each, one right after the other,
+/// and both results are observed.
+pub fn rebuilt_siblings_probe(eng: &GameState, mo: &Model, obs: &mut dyn Obs, st: &mut Stats) -> Check {
+    if mo.setup || mo.step != 0 {
+        return Ok(());
+    }
+    if mo.result_at_turn_start().is_some() {
+        return Ok(());
+    }
+    let offered = match guard(|| eng.valid_actions()) {
+        Ok(l) => l,
+        Err(_) => return Ok(()),
+    };
+    let legal = mo.offered_norep();
+    let quiet: Vec<Action> = offered.iter().copied().filter(|a| matches!(a, Action::Move(..)) && legal.contains(&to_maction(a)) && !mo.ends_turn(to_maction(a))).collect();
+    let mut pairs = 0;
+    for i in 0..quiet.len() {
+        let j = (i * 5 + 3) % quiet.len();
+        if i == j || pairs >= 6 {
+            continue;
+        }
+        let (ai, aj) = (quiet[i], quiet[j]);
+        let (mut ma, mut mb) = (mo.clone(), mo.clone());
+        if ma.apply(to_maction(&ai)).is_err() || mb.apply(to_maction(&aj)).is_err() {
+            continue;
+        }
+        let built = guard(|| (eng.take_action(&ai), eng.take_action(&aj)));
+        let (ea, eb) = match built {
+            Ok(x) => x,
+            Err(_) => continue,
+        };
+        let (ra, rb) = match (fork_with_history(&ea, &ma, &[]), fork_with_history(&eb, &mb, &[])) {
+            (Some(a), Some(b)) => (a.0, b.0),
+            _ => continue,
+        };
+        // a common further step that stays inside the turn
+        let xs: Vec<MAction> = ma.offered().intersection(&mb.offered()).copied().filter(|x| matches!(x, MAction::Step { .. }) && !ma.ends_turn(*x) && !mb.ends_turn(*x)).collect();
+        if xs.is_empty() {
+            continue;
+        }
+        let x = xs[(fp_combine(mo.fingerprint(), i as u64) % xs.len() as u64) as usize];
+        let xa = to_action(x);
+        let kids = guard(|| {
+            let ca = ra.take_action(&xa);
+            let cb = rb.take_action(&xa);
+            (ca, cb)
+        });
+        let (ca, cb) = match kids {
+            Ok(k) => k,
+            Err(_) => continue,
+        };
+        if ma.apply(x).is_err() || mb.apply(x).is_err() {
+            continue;
+        }
+        pairs += 1;
+        st.bump("rebuilt_sibling_pairs_advanced_back_to_back");
+        for (e, mm, first) in [(&cb, &mb, aj), (&ca, &ma, ai)] {
+            obs.on_state(&View::new(e, mm, true), st).map_err(|f| Fail::new(&f.clause, format!("(rebuilt siblings: the states after {} and after {} were both rebuilt through the constructors, then {} was played from each, one right after the other; this is the one below {}) {}", action_text(&ai), action_text(&aj), action_text(&xa), action_text(&first), f.detail)))?;
+        }
+    }
+    Ok(())
+}
 
 /// Sparse-observation probe. The state has just been observed (all its queries asked). Side walks of one,
 /// two and three offered actions are made below it in which the intermediate states are asked for
@@ -1181,6 +1255,13 @@ pub fn walk(
                 return Err(WalkFail { fail: f, trace: t, inconclusive: false });
             }
         }
+        if opts.interfere && !mo.setup && mo.step == 0 && (fp_combine(aux, i as u64 ^ 0x5b5b) & 1) == 0 {
+            if let Err((f, variant)) = observe_forks(&eng, &mo, &[VARIANT_SIBLINGS], obs, st) {
+                let mut t = trace.clone();
+                t.fork = Some(variant);
+                return Err(WalkFail { fail: f, trace: t, inconclusive: false });
+            }
+        }
         if opts.interfere && !mo.setup && mo.step == 1 {
             if let Err((f, variant)) = observe_forks(&eng, &mo, &[VARIANT_LOCKSTEP], obs, st) {
                 let mut t = trace.clone();
@@ -1219,6 +1300,10 @@ pub fn walk(
                         }
                         if f.detail.starts_with("(state expanded right after its transposed twin)") {
                             t.fork = Some(VARIANT_TWIN);
+                        }
+                        if f.detail.starts_with("(rebuilt siblings:") {
+                            t.fork = Some(VARIANT_SIBLINGS);
+                            t.branch = vec![];
                         }
                         return Err(WalkFail { fail: f, trace: t, inconclusive: false });
                     }
